@@ -68,7 +68,7 @@ def generate(ctx: Ctx, rep: Report) -> list[dict]:
     # NB: in -simulate mode TLC evaluates the invariants on every generated successor, so each trace also
     # emits the sibling models of its last step (same calls, other stoichiometries)
     workers = 8
-    per_worker = 60 if ctx.quick else 1500
+    per_worker = 60 if ctx.quick else 900
     nsim = per_worker * workers * 2
     parts = [(4, "TRUE", 3, 3, 2), (5, "FALSE", 2, 2, 1)] if ctx.quick else [(4, "TRUE", 3, 3, 2), (6, "FALSE", 3, 3, 2)]
     for part, (maxc, fwd, maxv, maxd, maxia) in enumerate(parts):
